@@ -59,7 +59,7 @@ class MUGSMultiViewWrapper(KDWrapper):
         if self.seed is not None:
             rng = np.random.default_rng(seed=self.seed + idx)
             for transform in self.transforms:
-                if isinstance(transform, (KDComposeTransform, KDStochasticTransform)):
+                if isinstance(transform, KDTransform):
                     transform.set_rng(rng)
         else:
             rng = GlobalRng()
